@@ -29,6 +29,12 @@
 // corresponding POSIX operation would open a FIFO without O_RDWR are therefore
 // not generated (and refused by the executor as a harness error).
 //
+// Ufs fids designate a path. A step may have the object behind its fid replaced
+// first (Step.Replace: removed through another fid, then a file / directory /
+// symlink / FIFO put under the same name through a third fid or by the host);
+// the request through the stale fid is judged against the POSIX operation on
+// the same path in B.
+//
 // After every step: Rerror iff the B operation failed; in 9P2000.u the ecode is
 // the errno of the failing B operation; A and B are compared recursively; a
 // create/remove answered with Rerror left A unchanged; after a successful
@@ -123,6 +129,21 @@ type Step struct {
 	// step (it joins the list) instead of being clunked.
 	Use  int  `json:"use,omitempty"`
 	Keep bool `json:"keep,omitempty"`
+
+	// Replace != "": after the step's fid was walked (or taken from the kept
+	// list) and before the operation is sent through it, the object the fid
+	// names is removed through ANOTHER fid and an object of kind Replace (file
+	// dir symlink fifo) is put under the same name — through a third fid
+	// (Tcreate in the parent directory) or, with RHost, FIFOs and symlinks in
+	// plain 9P2000, by the host in both trees. Ufs fids designate a path: the
+	// operation is judged against the POSIX operation on the same path in B.
+	// Probe: a Tstat is sent through the stale fid before the operation.
+	Replace string `json:"replace,omitempty"`
+	RHost   bool   `json:"rhost,omitempty"`
+	RPerm   uint32 `json:"rperm,omitempty"`
+	RData   []byte `json:"rdata,omitempty"`
+	RTarget []byte `json:"rtarget,omitempty"`
+	Probe   bool   `json:"probe,omitempty"`
 
 	// wstat
 	SetMode  bool   `json:"setmode,omitempty"`
@@ -567,6 +588,12 @@ type held struct {
 	fB         *os.File
 	alive      bool // false once a Tremove was sent (it clunks, also on error)
 	keepable   bool
+	// dirType: the qid type the server framework remembers for the fid (from
+	// its walk or create) is QTDIR. The framework refuses Tcreate on a fid it
+	// remembers as a non-directory and Topen for writing on one it remembers
+	// as a directory, whatever the path holds by now: such requests are not
+	// sent through a fid whose object changed kind behind its back.
+	dirType bool
 }
 
 const maxHeld = 4
@@ -593,6 +620,7 @@ func (m *machine) acquire(s *Step) (*held, error) {
 		return nil, err
 	}
 	h := &held{fid: f, comps: s.Path, alive: true, keepable: true}
+	h.dirType = lkind(under(m.B, s.Path)) == "dir"
 	h.inoA, _ = inoOf(under(m.A, s.Path))
 	h.inoB, _ = inoOf(under(m.B, s.Path))
 	m.cur = h
@@ -620,7 +648,9 @@ func (m *machine) release(h *held, keep bool) {
 
 // validateHeld drops every kept fid whose object is no longer what B has at
 // the fid's path (removed, replaced or moved away through another fid): what
-// such a fid refers to afterwards is not fixed by the statement.
+// such a fid refers to afterwards is only exercised by the directed variants
+// (Step.Stale: removed; Step.Replace: replaced under the same name, in which
+// case every kept fid on that path follows to the new object, see replace).
 func (m *machine) validateHeld() {
 	var keep []*held
 	for _, h := range m.held {
@@ -992,6 +1022,167 @@ func (m *machine) staleRemove(o *Outcome, comps [][]byte) error {
 	return m.compare(what)
 }
 
+// oldClass folds the kind of a replaced object for the evidence labels.
+func oldClass(k string) string {
+	switch k {
+	case "file", "hardlinked-file":
+		return "file"
+	case "empty-dir":
+		return "dir"
+	case "symlink":
+		return "symlink"
+	}
+	return "special"
+}
+
+// replace makes the fid h (already walked to s.Path) stale in the strong
+// sense: the object at s.Path is removed through another fid (a checked remove
+// of its own) and an object of kind s.Replace is created under the same name,
+// through a third fid or by the host in both trees alike. Afterwards h is
+// expected to designate whatever the path holds (Ufs fids are path-based), so
+// the twin side's record of the fid is moved to the new object. Returns the
+// class of the replaced object.
+func (m *machine) replace(o *Outcome, s *Step, h *held) (string, error) {
+	if len(s.Path) == 0 {
+		return "", harnessf("replace of the root")
+	}
+	if s.Stale {
+		return "", harnessf("step both stale and replace")
+	}
+	tA, tB := under(m.A, s.Path), under(m.B, s.Path)
+	old := m.removeClass(tB)
+	if old == "free" || old == "nonempty-dir" {
+		return "", harnessf("replace of %s, which is %s; the generator must not produce it", q(relOf(s.Path)), old)
+	}
+	if err := m.staleRemove(o, s.Path); err != nil {
+		return "", err
+	}
+	if lkind(tB) != "free" {
+		return "", harnessf("replace: %s (%s) could not be removed in B", q(relOf(s.Path)), old)
+	}
+	parent := s.Path[:len(s.Path)-1]
+	name := string(s.Path[len(s.Path)-1])
+	perm := s.RPerm & 0o777
+	host := s.RHost || s.Replace == "fifo" || (s.Replace == "symlink" && !m.dotu)
+	what := fmt.Sprintf("putting a %s where a fid still names the removed %s %s", s.Replace, old, q(relOf(s.Path)))
+	if host {
+		for _, p := range []string{tA, tB} {
+			var err error
+			switch s.Replace {
+			case "file":
+				if err = os.WriteFile(p, s.RData, 0o600); err == nil {
+					err = os.Chmod(p, os.FileMode(perm))
+				}
+			case "dir":
+				if err = os.Mkdir(p, 0o700); err == nil {
+					err = os.Chmod(p, os.FileMode(perm))
+				}
+			case "symlink":
+				err = os.Symlink(string(s.RTarget), p)
+			case "fifo":
+				if err = syscall.Mkfifo(p, 0o600); err == nil {
+					err = os.Chmod(p, os.FileMode(perm))
+				}
+			default:
+				err = fmt.Errorf("unknown kind %q", s.Replace)
+			}
+			if err != nil {
+				return "", harnessf("%s (host side): %v", what, err)
+			}
+		}
+		what += " (host side)"
+	} else {
+		f, err := m.walk(parent)
+		if err != nil {
+			return "", err
+		}
+		defer m.clunk(f)
+		wperm, mode, ext := perm, uint8(oRdwr), ""
+		switch s.Replace {
+		case "file":
+		case "dir":
+			wperm |= dmDir
+			mode = oRead
+		case "symlink":
+			wperm |= dmSymlink
+			ext = string(s.RTarget)
+		default:
+			return "", harnessf("replace kind %q through 9P", s.Replace)
+		}
+		what = fmt.Sprintf("Tcreate(%s in %s, perm %#o, mode %d, ext %s) [%s]", q(name), q(relOf(parent)), wperm, mode, q(ext), what)
+		r, err := m.cl.Create(f, name, wperm, mode, ext)
+		if err != nil {
+			return "", m.rpcErr("Tcreate", err)
+		}
+		var errB error
+		var fB *os.File
+		switch s.Replace {
+		case "file":
+			fB, errB = os.OpenFile(tB, os.O_RDWR|os.O_CREATE, os.FileMode(perm))
+		case "dir":
+			errB = os.Mkdir(tB, os.FileMode(perm))
+		case "symlink":
+			errB = os.Symlink(ext, tB)
+		}
+		if fB != nil {
+			defer fB.Close()
+		}
+		if err := m.verdict(o, what, r, errB, true); err != nil {
+			return "", err
+		}
+		if errB != nil {
+			return "", harnessf("%s: refused on both sides (%v)", what, errB)
+		}
+		if fB != nil && len(s.RData) > 0 {
+			if err := m.writeBoth(o, f, fB, WriteOp{Data: s.RData}, what); err != nil {
+				return "", err
+			}
+		}
+	}
+	if err := m.compare(what); err != nil {
+		return "", err
+	}
+	h.inoA, _ = inoOf(tA)
+	h.inoB, _ = inoOf(tB)
+	if h.inoB != 0 {
+		m.created[h.inoB] = true
+	}
+	// other kept fids on the same path are stale in the same way
+	for _, g := range m.held {
+		if relOf(g.comps) == relOf(s.Path) {
+			g.inoA, g.inoB = h.inoA, h.inoB
+		}
+	}
+	o.Touched = true
+	if s.Probe {
+		// observation only: the fid designates its path
+		if err := m.fidCheck(h, "after "+what); err != nil {
+			return "", err
+		}
+	}
+	return oldClass(old), nil
+}
+
+// replacedClass decorates the evidence classes of a step sent through a fid
+// whose object was replaced.
+func replacedClass(o *Outcome, s *Step, old string) {
+	if s.Replace == "" {
+		return
+	}
+	via := "9p"
+	if s.RHost || s.Replace == "fifo" {
+		via = "host"
+	}
+	o.ArgClass += fmt.Sprintf(" replaced:%s-by-%s-%s", old, s.Replace, via)
+	if s.Probe {
+		o.ArgClass += "-probed"
+	}
+	if old != "dir" {
+		old = "non-directory" // the evidence labels only tell the remembered qid type
+	}
+	o.Label = fmt.Sprintf("stale fid, %s replaced by %s", old, s.Replace)
+}
+
 // Exec applies one step to both trees and checks it.
 func (m *machine) Exec(s *Step) (*Outcome, error) {
 	o := &Outcome{Op: s.Op}
@@ -1016,7 +1207,7 @@ func (m *machine) Exec(s *Step) (*Outcome, error) {
 		m.validateHeld()
 	}
 	if s.Use > 0 {
-		if f := strings.Fields(o.Label); len(f) > 0 {
+		if f := strings.Fields(o.Label); len(f) > 0 && s.Replace == "" {
 			o.Label = "through a kept fid: " + f[0]
 		}
 		o.ArgClass += " kept-fid"
@@ -1062,6 +1253,14 @@ func (m *machine) execCreate(o *Outcome, s *Step) error {
 			return err
 		}
 	}
+	var replaced string
+	if s.Replace != "" {
+		// the directory the fid names is replaced (by another directory, a
+		// file, a symlink, a FIFO): the create happens at path/name in B
+		if replaced, err = m.replace(o, s, h); err != nil {
+			return err
+		}
+	}
 	if pi, ok := inoOf(under(m.B, s.Path)); ok && m.created[pi] {
 		o.Touched = true
 	}
@@ -1096,6 +1295,7 @@ func (m *machine) execCreate(o *Outcome, s *Step) error {
 	if s.Stale {
 		o.ArgClass += " stale-parent"
 	}
+	replacedClass(o, s, replaced)
 	what := fmt.Sprintf("Tcreate(%s in %s, perm %#o, mode %d, ext %s) [%s]", q(string(s.Name)), q(relOf(s.Path)), wperm, s.Mode, q(ext), o.ArgClass)
 
 	pre := m.entA
@@ -1213,6 +1413,7 @@ func (m *machine) execCreate(o *Outcome, s *Step) error {
 	h.inoB, _ = inoOf(tB)
 	h.opened, h.mode = true, s.Mode
 	h.keepable = occ == "free"
+	h.dirType = s.Kind == "dir"
 
 	// the fid refers to the created object
 	if occ == "free" {
@@ -1360,6 +1561,15 @@ func (m *machine) execWrite(o *Outcome, s *Step) error {
 		return err
 	}
 	fid := h.fid
+	var replaced string
+	if s.Replace != "" {
+		if h.opened {
+			return harnessf("replace before a write through an open fid")
+		}
+		if replaced, err = m.replace(o, s, h); err != nil {
+			return err
+		}
+	}
 	if fi, err := os.Stat(tB); err == nil {
 		if m.created[fi.Sys().(*syscall.Stat_t).Ino] {
 			o.Touched = true
@@ -1383,6 +1593,7 @@ func (m *machine) execWrite(o *Outcome, s *Step) error {
 	for _, w := range s.Writes {
 		o.ArgClass += " " + offClass(w.Off, size) + "/" + lenClass(len(w.Data))
 	}
+	replacedClass(o, s, replaced)
 	ctx := fmt.Sprintf("%s [%s]", q(relOf(s.Path)), o.ArgClass)
 	if h.opened {
 		// a fid kept open by an earlier create or write step
@@ -1478,6 +1689,13 @@ func (m *machine) execRemove(o *Outcome, s *Step) error {
 			return err
 		}
 	}
+	var replaced string
+	if s.Replace != "" {
+		// both fids are stale afterwards
+		if replaced, err = m.replace(o, s, h); err != nil {
+			return err
+		}
+	}
 	if bi, ok := inoOf(tB); ok && m.created[bi] {
 		o.Touched = true
 	}
@@ -1487,6 +1705,7 @@ func (m *machine) execRemove(o *Outcome, s *Step) error {
 		o.ArgClass += " twice"
 	}
 	o.Label = o.ArgClass
+	replacedClass(o, s, replaced)
 	what := fmt.Sprintf("Tremove(%s) [%s]", q(relOf(s.Path)), o.ArgClass)
 	pre := m.entA
 	h.alive = false // Tremove clunks the fid whatever the outcome
@@ -1565,6 +1784,12 @@ func (m *machine) execWstat(o *Outcome, s *Step) error {
 		return err
 	}
 	fid := h.fid
+	var replaced string
+	if s.Replace != "" {
+		if replaced, err = m.replace(o, s, h); err != nil {
+			return err
+		}
+	}
 	inoA := h.inoA
 	_ = tA
 	kind := lkind(tB)
@@ -1651,6 +1876,7 @@ func (m *machine) execWstat(o *Outcome, s *Step) error {
 		o.ArgClass += " stale"
 		o.Label = kind + " stale"
 	}
+	replacedClass(o, s, replaced)
 	gone := lkind(tB) == "free" // the fid is stale: the server fails in Lstat, an os-package call
 
 	st := rawc.NoChangeStat()
